@@ -157,6 +157,9 @@ def run(tier, seed):
     shapes = tq.failing_shapes(m0, 'e/i') + (tq.failing_shapes(m0, 'f') if tier != 'quick' else [])
     shape_series = [[tq.Patch([fp])] for fp in shapes] + [[tq.Patch([tq.t_mod(m0, tq.Fresh(), 'd/g'), fp])] for fp in shapes[::3]]
     tasks = [(m0, s, t, sets) for s in series for t in (1, 2)] + [(m0, s, t, verb_sets) for s in shape_series for t in (1, 2)]
+    # hand-written workspaces with symbolic links (the loaders follow them; what they see must not depend on the loader)
+    import rawcases
+    tasks += [(m0, c, t, sets) for c in rawcases.for_prop('C14') for t in (1, 2)]
     acc = wsweep.Acc(res)
     for i, r in enumerate(wsweep.pmap(case, tasks)):
         if i % 97 == 0:
